@@ -647,6 +647,25 @@ func errorHandled(m *model.Model, sc *model.SC, call *ast.CallExpr, errIdx, nres
 				if strings.HasPrefix(name, "Next") && (errorPos != token.NoPos && y.Pos() > errorPos) {
 					emitsNext = true // a value after the Error notification
 				}
+				// the error is handed to a local closure or helper of the repository that sends it as an Error
+				// notification (fail(ctx, err), emitCountThenError(ctx, err))
+				for ai, a := range y.Args {
+					if !mentions(a) {
+						continue
+					}
+					for _, fnode := range calleeFuncNodes(m, p, y) {
+						prm := model.FlattenParams(fnode.Pkg.TypesInfo, funcType(fnode.Fn).Params)
+						if ai >= len(prm) || prm[ai] == nil {
+							continue
+						}
+						if sendsAsError(m, fnode.Pkg, funcBody(fnode.Fn), prm[ai], 2) {
+							emits = true
+							if errorPos == token.NoPos {
+								errorPos = y.Pos()
+							}
+						}
+					}
+				}
 			case *ast.ReturnStmt:
 				returns = true
 				for _, r := range y.Results {
@@ -738,6 +757,73 @@ func ruleUnwrap() check.Rule {
 						c.OK(key, uw.Pos(), "Unwrap returns field %s", errField.Name())
 					} else {
 						c.Violation(key, uw.Pos(), "Unwrap of %s does not return the stored cause %s", name, errField.Name())
+					}
+					// the constructors: a function that wraps its error parameter in this type returns, on every path, that
+					// wrapper or the parameter itself — not some other error dug out of the chain
+					info := p.TypesInfo
+					for _, f := range p.Syntax {
+						for _, d := range f.Decls {
+							fd, ok := d.(*ast.FuncDecl)
+							if !ok || fd.Body == nil || fd.Recv != nil {
+								continue
+							}
+							var cause *types.Var
+							wraps := func(e ast.Expr) bool {
+								e = ast.Unparen(e)
+								if u, ok := e.(*ast.UnaryExpr); ok && u.Op == token.AND {
+									e = ast.Unparen(u.X)
+								}
+								cl, ok := e.(*ast.CompositeLit)
+								if !ok || load.NamedOf(info.TypeOf(cl)) == nil || load.NamedOf(info.TypeOf(cl)).Obj() != tn {
+									return false
+								}
+								for _, el := range cl.Elts {
+									kv, ok := el.(*ast.KeyValueExpr)
+									if !ok {
+										continue
+									}
+									if k, ok := kv.Key.(*ast.Ident); ok && k.Name == errField.Name() {
+										if id, ok := ast.Unparen(kv.Value).(*ast.Ident); ok {
+											if v, ok := objOf(info, id).(*types.Var); ok && isParamVar(m, v) && isErrorType(v.Type()) {
+												cause = v
+												return true
+											}
+										}
+									}
+								}
+								return false
+							}
+							rets := returnsOf(fd.Body)
+							isCtor := false
+							for _, r := range rets {
+								if len(r.Results) == 1 && wraps(r.Results[0]) {
+									isCtor = true
+								}
+							}
+							if !isCtor {
+								continue
+							}
+							c.Inc("error_wrapper_constructors", 1)
+							ckey := model.ShortPkg(p.PkgPath) + "." + fd.Name.Name + "/keeps-cause"
+							bad := token.NoPos
+							for _, r := range rets {
+								if len(r.Results) != 1 {
+									continue
+								}
+								if wraps(r.Results[0]) {
+									continue
+								}
+								if id, ok := ast.Unparen(r.Results[0]).(*ast.Ident); ok && objOf(info, id) == types.Object(cause) {
+									continue
+								}
+								bad = r.Pos()
+							}
+							if bad.IsValid() {
+								c.Violation(ckey, bad, "%s wraps its error parameter in %s, but this path returns another value (%s): the error that was passed in — and whatever wrapped it — is no longer reachable with errors.Is/As from what the subscriber receives", fd.Name.Name, name, "not the wrapper, not the parameter")
+							} else {
+								c.OK(ckey, fd.Pos(), "every path returns the wrapper around the parameter, or the parameter")
+							}
+						}
 					}
 				}
 			}
@@ -1293,4 +1379,46 @@ func libraryOwnedParam(m *model.Model, p *packages.Package, fn ast.Node, fv *typ
 		return true
 	})
 	return ok && sites > 0
+}
+
+// sendsAsError: body contains a call of an Error* method whose arguments mention v, directly or by handing v on to a
+// further helper or closure.
+func sendsAsError(m *model.Model, p *packages.Package, body *ast.BlockStmt, v *types.Var, depth int) bool {
+	if body == nil {
+		return false
+	}
+	info := p.TypesInfo
+	found := false
+	ast.Inspect(body, func(x ast.Node) bool {
+		call, ok := x.(*ast.CallExpr)
+		if !ok || found {
+			return !found
+		}
+		for ai, a := range call.Args {
+			uses := false
+			ast.Inspect(a, func(z ast.Node) bool {
+				if id, ok := z.(*ast.Ident); ok && objOf(info, id) == types.Object(v) {
+					uses = true
+				}
+				return !uses
+			})
+			if !uses {
+				continue
+			}
+			if strings.HasPrefix(shortCallee(info, call), "Error") {
+				found = true
+				return false
+			}
+			if depth > 0 {
+				for _, fnode := range calleeFuncNodes(m, p, call) {
+					prm := model.FlattenParams(fnode.Pkg.TypesInfo, funcType(fnode.Fn).Params)
+					if ai < len(prm) && prm[ai] != nil && sendsAsError(m, fnode.Pkg, funcBody(fnode.Fn), prm[ai], depth-1) {
+						found = true
+					}
+				}
+			}
+		}
+		return !found
+	})
+	return found
 }
